@@ -13,7 +13,7 @@ COMMON_TRUSTED = [
 PROPS = {
     "C08": dict(
         modules=["Gopki.Props.C08"],
-        theorems=["Merge.C08_merge_eq_spec", "Merge.C08_no_shared_oid", "Merge.C08_empty_profile"],
+        theorems=['Merge.C08_merge_eq_spec', 'Merge.C08_no_shared_oid', 'Merge.C08_empty_profile', 'Merge.C08_override_needed_fails'],
         ops=["merge"],
         rule="merge: exhaustive profile lists (<=2 quick, <=3 thorough) x certificate lists <=3 over 2 OIDs x 2 bodies x optional x override, "
              "then random lists up to 8+8 over 14 real v1 extension values; a case is non-trivial when a profile extension shares an OID with a "
@@ -36,8 +36,8 @@ PROPS = {
         assumptions=["the subject reaches Validate in the reversed order ParseRDNSequence produces"],
     ),
     "C03": dict(
-        modules=["Gopki.Props.C03"],
-        theorems=["Rdn.parse_render"],
+        modules=['Gopki.Props.C03'],
+        theorems=['Rdn.parse_render', 'C03.C03_body_fields', 'C03.C03_sign_keeps_fields', 'C03.C03_validate_is_pure', 'C01.C01_signs_with_issuer'],
         ops=["rdn", "validate", "pki"],
         rule="rdn: all 1-2-attribute subjects over a 12-key alphabet x 6 value shapes with 4 separator variants, random subjects up to 8 attributes, "
              "a hand-written list of inputs outside the documented grammar (escapes, #hex, malformed), random strings over a 12-symbol alphabet; "
@@ -46,8 +46,8 @@ PROPS = {
         assumptions=["YAML/JSON front end delivers the subject string unchanged (exercised by the pki op)"],
     ),
     "C04": dict(
-        modules=["Gopki.Props.C04"],
-        theorems=[],
+        modules=['Gopki.Props.C04', 'Gopki.Props.C05'],
+        theorems=['C04.C04_inverse_law_sample_years_partial', 'C04.C04_duration_grammar', 'C04.C04_duration_months_digits', 'C04.C04_utc_tag', 'C04.C04_inherit', 'Calendar.yoe_table', 'Cal.mp_inv', 'Cal.doy_bounds', 'C05.model_defaults_eq_facts'],
         ops=["validity", "pki"],
         rule="validity: every calendar day of two years (thorough: 1950-2200) x rotating zone offsets x {from, until, from+duration, from+until}, boundary dates x 9 offsets x 15 durations, "
              "impossible dates, malformed durations, random combinations; non-trivial = well-formed input with at least one of from/until/duration",
@@ -56,14 +56,14 @@ PROPS = {
     ),
     "C06": dict(
         modules=["Gopki.Props.C06"],
-        theorems=["B64.dec_enc"],
+        theorems=['C06.C06_b64_any_length', 'C06.C06_constant_compiles_to_itself', 'C06.mapM_constant', 'C06.C06_extensions_in_order', 'C06.C06_raw_handler', 'C06.C06_null_empty', 'B64.dec_enc'],
         ops=["raw", "ext", "pki"],
         rule="raw: !null, !empty, every payload length 0..1100 (thorough 0..8200) plus 1535, 1536, 4096, 65536 with random bytes, hand-written malformed encodings, single-character mutations; non-trivial = accepted non-empty payload",
         modelled=["modelled, not verified: encoding/base64 StdEncoding.DecodeString (CR/LF skipping, lenient trailing bits)"],
         assumptions=[],
     ),
     "C01": dict(
-        modules=["Gopki.Props.C01"], theorems=[], ops=["pki", "hist"],
+        modules=["Gopki.Props.C01"], theorems=['C01.C01_mismatch_fails', 'C01.C01_no_issuer_key_fails', 'C01.C01_signs_with_issuer', 'C01.C01_ski_is_sha1', 'C01.C01_aki_is_sha1', 'Conv.run_converges', 'Forest.bfs_main'], ops=["pki", "hist"],
         rule="pki: forests of 1-5 entities (random parent vector, nested directories, yaml/yml/json), every key algorithm except RSA>=2048 in quick, configured/omitted signature algorithms, "
              "subjects from the documented grammar incl. UTF-8 and custom OIDs, 0-6 extensions of all 11 kinds, serials, unique ids, validity forms, manipulations in 1 of 5 forests, 6 zone offsets, 5 flag sets; "
              "non-trivial = at least one certificate generated; every generated certificate is compared byte for byte with the model and read by the strict decoder",
@@ -72,7 +72,7 @@ PROPS = {
         assumptions=["Crypto laws: a signature made with a private key verifies under its public key; ECDSA/RSA key type is what the key's Go type says"],
     ),
     "C02": dict(
-        modules=["Gopki.Props.C02"], theorems=[], ops=['pki', 'hist'],
+        modules=['Gopki.Props.C02'], theorems=['C02.C02_reencode_identity', 'C02.C02_model_cert_decodable', 'C02.C02_algid_params', 'C02.C02_inner_eq_outer', 'C02.C02_version_v3', 'C02.C02_serial_source', 'C02.C02_serial_len', 'C02.C02_time_form', 'Der.dec_sound', 'Der.dec_enc'], ops=['pki', 'hist'],
         rule="pki: forests of 1-5 entities (random parent vector, nested directories, yaml/yml/json), every key algorithm except RSA>=2048 in quick, configured/omitted signature algorithms, "
              "subjects from the documented grammar incl. UTF-8 and custom OIDs, 0-6 extensions of all 11 kinds, serials, unique ids, validity forms, manipulations in 1 of 5 forests, 6 zone offsets, 5 flag sets; "
              "every generated certificate is compared byte for byte with the model and read by the strict decoder; non-trivial = at least one certificate generated",
@@ -80,7 +80,7 @@ PROPS = {
         assumptions=[],
     ),
     "C05": dict(
-        modules=["Gopki.Props.C05"], theorems=[], ops=['pki'],
+        modules=['Gopki.Props.C05'], theorems=['C05.C05_key_table', 'C05.C05_key_names_complete', 'C05.C05_sig_table', 'C05.C05_sig_out_of_range', 'C05.C05_defaults', 'C05.model_keyAlgorithms_eq_facts', 'C05.model_sigAlgorithms_eq_facts', 'C05.model_defaults_eq_facts', 'C05.model_curves_eq_facts', 'C05.model_attribute_names_eq_facts', 'C05.model_eku_names_eq_facts', 'C05.model_ext_oids_eq_facts', 'C05.model_general_name_tags_eq_facts'], ops=['pki'],
         rule="pki: forests of 1-5 entities (random parent vector, nested directories, yaml/yml/json), every key algorithm except RSA>=2048 in quick, configured/omitted signature algorithms, "
              "subjects from the documented grammar incl. UTF-8 and custom OIDs, 0-6 extensions of all 11 kinds, serials, unique ids, validity forms, manipulations in 1 of 5 forests, 6 zone offsets, 5 flag sets; "
              "every generated certificate is compared byte for byte with the model and read by the strict decoder; non-trivial = at least one certificate generated",
@@ -88,7 +88,7 @@ PROPS = {
         assumptions=[],
     ),
     "C07": dict(
-        modules=["Gopki.Props.C07"], theorems=[], ops=['ext', 'pki'],
+        modules=['Gopki.Props.C07', 'Gopki.Props.C05'], theorems=['C07.C07_keyusage_bits', 'C07.C07_keyusage_names', 'C07.decInt_natIntBytes', 'C07.C07_basic_constraints_roundtrip', 'C07.C07_ski_roundtrip', 'X509.decodeDer_enc', 'X509.decodeDer_sound', 'C05.model_general_name_tags_eq_facts', 'C05.model_eku_names_eq_facts'], ops=['ext', 'pki'],
         rule="ext: all 128 key-usage subsets, basicConstraints ca x pathLen in {absent,0,1,2,127,128,255,256,65535} (thorough 0..255), key identifiers hashed and explicit (1/20/200 bytes), every kind with raw !null/!empty/!binary (4 and 900 bytes) and without content, "
              "3000 (thorough 60000) random structured contents of the nine structured kinds, SAN/admission IP boundary and malformed addresses, all 256 subsets of optional admission members x four authority kinds, strings the encoders must reject; "
              "the model must produce the same bytes and the RFC 5280 / CommonPKI decoders must read the configured content back; non-trivial = structured content emitted" + " | " + "pki: forests of 1-5 entities (random parent vector, nested directories, yaml/yml/json), every key algorithm except RSA>=2048 in quick, configured/omitted signature algorithms, "
@@ -98,14 +98,14 @@ PROPS = {
         assumptions=[],
     ),
     "C10": dict(
-        modules=["Gopki.Props.C10"], theorems=[], ops=['hist'],
+        modules=['Gopki.Props.C10'], theorems=['Conv.second_run_noop', 'Conv.no_reason_noop', 'C10.C10_install_touches_one', 'C10.C10_install_keeps_configs', 'C11.C11_no_flags_no_regen'], ops=['hist'],
         rule="hist: forests of 1-4 entities, a first default run, then 1-5 (thorough 1-9) steps drawn from {edit config, delete/truncate/strip-block/replace artifact, touch config, run with one of 12 flag sets, run with an injected write fault (error / torn prefix / death after write)}, "
              "then a default run (convergence evaluated) and another default run (must be a no-op); every run is replayed on the model from the directory observed before it; non-trivial = at least three runs",
         modelled=['modelled, not verified: encoding/asn1 marshalling (Gopki.Base.Asn1 / Gopki.Model.Generator), encoding/pem, encoding/json (Gopki.Model.Hash), io/fs walk order, MapFS, YAML/JSON-schema front end (identity)', 'signature mathematics and key generation: oracle inputs; verification done by the harness with crypto/ecdsa, crypto/rsa and the keybase brainpool curves'],
         assumptions=['monotone clock: every write stamps a later mtime than all earlier ones (real time.Now on a MapFS)'],
     ),
     "C11": dict(
-        modules=["Gopki.Props.C11"], theorems=[], ops=['hist', 'pki'],
+        modules=["Gopki.Props.C11"], theorems=['C11.C11_needsUpdate_iff', 'C11.C11_no_flags_no_regen', 'C11.C11_flags_table', 'C11.C11_strategy_bits', 'Conv.run_converges', 'Forest.bfs_main'], ops=['hist', 'pki'],
         rule="hist: forests of 1-4 entities, a first default run, then 1-5 (thorough 1-9) steps drawn from {edit config, delete/truncate/strip-block/replace artifact, touch config, run with one of 12 flag sets, run with an injected write fault (error / torn prefix / death after write)}, "
              "then a default run (convergence evaluated) and another default run (must be a no-op); every run is replayed on the model from the directory observed before it; non-trivial = at least three runs" + "pki: forests of 1-5 entities (random parent vector, nested directories, yaml/yml/json), every key algorithm except RSA>=2048 in quick, configured/omitted signature algorithms, "
              "subjects from the documented grammar incl. UTF-8 and custom OIDs, 0-6 extensions of all 11 kinds, serials, unique ids, validity forms, manipulations in 1 of 5 forests, 6 zone offsets, 5 flag sets; "
@@ -114,34 +114,34 @@ PROPS = {
         assumptions=[],
     ),
     "C12": dict(
-        modules=["Gopki.Props.C12"], theorems=[], ops=['hist'],
+        modules=['Gopki.Props.C12'], theorems=['Conv.converge_after_any_history', 'Conv.reach_sinv', 'Conv.sinv_inv', 'Conv.run_converges', 'Conv.opCfg_sinv', 'Conv.opDelete_sinv', 'Conv.opWrite_sinv'], ops=['hist'],
         rule="hist: forests of 1-4 entities, a first default run, then 1-5 (thorough 1-9) steps drawn from {edit config, delete/truncate/strip-block/replace artifact, touch config, run with one of 12 flag sets, run with an injected write fault (error / torn prefix / death after write)}, "
              "then a default run (convergence evaluated) and another default run (must be a no-op); every run is replayed on the model from the directory observed before it; non-trivial = at least three runs",
         modelled=['modelled, not verified: encoding/asn1 marshalling (Gopki.Base.Asn1 / Gopki.Model.Generator), encoding/pem, encoding/json (Gopki.Model.Hash), io/fs walk order, MapFS, YAML/JSON-schema front end (identity)', 'signature mathematics and key generation: oracle inputs; verification done by the harness with crypto/ecdsa, crypto/rsa and the keybase brainpool curves'],
         assumptions=["user-supplied artifacts holding certificate and key are coherent; replaced artifacts are copies of other entities' files without hash line"],
     ),
     "C13": dict(
-        modules=["Gopki.Props.C13"], theorems=[], ops=['hash', 'hist'],
+        modules=["Gopki.Props.C13"], theorems=['C13.C13_independent_of_alias_and_profile_name', 'C13.C13_hash_independent', 'C13.C13_independent_of_now', 'C13.C13_validity_blind_spot', 'C13.C13_extension_kind_blind_spot'], ops=['hash', 'hist'],
         rule="hash: 60 (thorough 1000) base configurations with and without profile x {4-5 re-readings under other alias / file name / profile name / JSON syntax} x ~22 single-field edits of certificate and profile; JSON pre-image and SHA-1 compared with the model; every pair of variants compared (certificate differs => hash differs); non-trivial = base configuration accepted",
         modelled=['modelled, not verified: encoding/asn1 marshalling (Gopki.Base.Asn1 / Gopki.Model.Generator), encoding/pem, encoding/json (Gopki.Model.Hash), io/fs walk order, MapFS, YAML/JSON-schema front end (identity)', 'signature mathematics and key generation: oracle inputs; verification done by the harness with crypto/ecdsa, crypto/rsa and the keybase brainpool curves'],
         assumptions=[],
     ),
     "C14": dict(
-        modules=["Gopki.Props.C14"], theorems=[], ops=['hist', 'pki'],
+        modules=["Gopki.Props.C14"], theorems=['C14.C14_key_kept', 'C14.C14_csr', 'C14.C14_fresh_only_when_nothing_stored', 'C14.C14_generate_returns_stored_key'], ops=['hist', 'pki'],
         rule="hist: forests of 1-4 entities, a first default run, then 1-5 (thorough 1-9) steps drawn from {edit config, delete/truncate/strip-block/replace artifact, touch config, run with one of 12 flag sets, run with an injected write fault (error / torn prefix / death after write)}, "
              "then a default run (convergence evaluated) and another default run (must be a no-op); every run is replayed on the model from the directory observed before it; non-trivial = at least three runs",
         modelled=['modelled, not verified: encoding/asn1 marshalling (Gopki.Base.Asn1 / Gopki.Model.Generator), encoding/pem, encoding/json (Gopki.Model.Hash), io/fs walk order, MapFS, YAML/JSON-schema front end (identity)', 'signature mathematics and key generation: oracle inputs; verification done by the harness with crypto/ecdsa, crypto/rsa and the keybase brainpool curves'],
         assumptions=[],
     ),
     "C15": dict(
-        modules=["Gopki.Props.C15"], theorems=[], ops=['hist'],
+        modules=['Gopki.Props.C15', 'Gopki.Abs.Conv4'], theorems=['Conv.grun_sinv', 'Conv.opWrite_sinv', 'Conv.converge_after_any_history', 'Conv.second_run_noop'], ops=['hist'],
         rule="hist: forests of 1-4 entities, a first default run, then 1-5 (thorough 1-9) steps drawn from {edit config, delete/truncate/strip-block/replace artifact, touch config, run with one of 12 flag sets, run with an injected write fault (error / torn prefix / death after write)}, "
              "then a default run (convergence evaluated) and another default run (must be a no-op); every run is replayed on the model from the directory observed before it; non-trivial = at least three runs",
         modelled=['modelled, not verified: encoding/asn1 marshalling (Gopki.Base.Asn1 / Gopki.Model.Generator), encoding/pem, encoding/json (Gopki.Model.Hash), io/fs walk order, MapFS, YAML/JSON-schema front end (identity)', 'signature mathematics and key generation: oracle inputs; verification done by the harness with crypto/ecdsa, crypto/rsa and the keybase brainpool curves'],
         assumptions=[],
     ),
     "C19": dict(
-        modules=["Gopki.Props.C19"], theorems=[], ops=['pki'],
+        modules=["Gopki.Props.C19"], theorems=['C19.C19_outer_leaves_tbs', 'C19.C19_version_frame', 'C19.C19_tbs_signature_frame', 'C19.C19_public_key_frame', 'C19.C19_public_key_alg_frame', 'C19.C19_sign_keeps_preset', 'C19.C19_ski_follows_bits', 'C19.C19_apply_total', 'C19.C19_bad_oid_reported'], ops=['pki'],
         rule="pki: forests of 1-5 entities (random parent vector, nested directories, yaml/yml/json), every key algorithm except RSA>=2048 in quick, configured/omitted signature algorithms, "
              "subjects from the documented grammar incl. UTF-8 and custom OIDs, 0-6 extensions of all 11 kinds, serials, unique ids, validity forms, manipulations in 1 of 5 forests, 6 zone offsets, 5 flag sets; "
              "every generated certificate is compared byte for byte with the model and read by the strict decoder; non-trivial = at least one certificate generated",
@@ -149,7 +149,7 @@ PROPS = {
         assumptions=[],
     ),
     "C18": dict(
-        modules=["Gopki.Props.C18"], theorems=["Forest.bfs_main", "Forest.consistent_iff"], ops=["open"],
+        modules=["Gopki.Props.C18"], theorems=['C18.C18_isConsistent_iff', 'Forest.bfs_main', 'Forest.consistent_iff'], ops=["open"],
         rule="open: every issuer function on 1-3 (thorough 1-4) entities with issuer in {none, each entity incl. itself, an undefined alias}, spread over nested directories and suffix/case variants, "
              "with junk files (other suffixes, unparseable text, no version key, schema-invalid, wrong version, empty); 13 hand-written alias-collision and layout cases; 150 (thorough 3000) random directories "
              "with aliases from a 4-name pool; each directory is opened, planned and signed; non-trivial = at least one certificate generated or the hierarchy refused",
@@ -159,7 +159,7 @@ PROPS = {
         assumptions=[],
     ),
     "C17": dict(
-        modules=["Gopki.Props.C17"], theorems=[], ops=["pkcs8", "pemfile"],
+        modules=['Gopki.Props.C17', 'Gopki.Props.C05'], theorems=['C17.C17_scalar_width', 'C17.C17_scalar_roundtrip', 'C17.C17_reject_out_of_range', 'C17.C17_curve_table', 'C17.C17_unknown_curve', 'X509.decodeDer_enc', 'X509.decodeDer_sound', 'C05.model_curves_eq_facts'], ops=["pkcs8", "pemfile"],
         rule="pkcs8: ten curves x scalars {1, 2, 255, 256, n-1, n/2, 2^(8(w-1)), 2^(8(w-1))-1, 2^(8(w-2)), 20 (thorough 200) random incl. 1-3 leading zero octets} written by gopki and read back (also through PEM, and by crypto/x509 for NIST curves), "
              "the same scalars in six foreign forms (parameters inner-only / both / none / unknown curve, stripped and padded scalars), crypto/x509-written keys, invalid scalars 0, n, n+1, 2^(8w)-1, RSA 1024/2048 (thorough 3072/4096) both directions, "
              "1500 (thorough 30000) single-byte mutations of a valid key; pemfile: all 16 combinations of hash line / certificate / key / request in two orders for three key types, and torn prefixes at every block boundary +-2 and 64 random offsets (thorough: every offset); "
@@ -169,7 +169,7 @@ PROPS = {
         assumptions=["the public point of a key is d*G (checked by the harness for every key read)"],
     ),
     "C16": dict(
-        modules=["Gopki.Props.C16"], theorems=[], ops=["ext"],
+        modules=["Gopki.Props.C16"], theorems=['C16.C16_general_name_tags', 'C16.C16_convert_kinds', 'C16.C16_convert_kinds_facts', 'C16.C16_admissions_tagging', 'C16.C16_profession_info_shape', 'C16.C16_registration_number_checked'], ops=["ext"],
         rule="ext: all 128 key-usage subsets, basicConstraints ca x pathLen in {absent,0,1,2,127,128,255,256,65535} (thorough 0..255), key identifiers hashed and explicit (1/20/200 bytes), every kind with raw !null/!empty/!binary (4 and 900 bytes) and without content, "
              "3000 (thorough 60000) random structured contents of the nine structured kinds, SAN/admission IP boundary and malformed addresses, all 256 subsets of optional admission members x four authority kinds, strings the encoders must reject; "
              "the model must produce the same bytes and the RFC 5280 / CommonPKI decoders must read the configured content back; non-trivial = structured content emitted",
@@ -177,7 +177,7 @@ PROPS = {
         assumptions=[],
     ),
     "C20": dict(
-        modules=["Gopki.Props.C20"], theorems=[], ops=["crash", "pkcs8", "pemfile", "rdn", "raw"], sites=True,
+        modules=['Gopki.Props.C20', 'Gopki.Props.C19'], theorems=['C20.C20_oid_range', 'C20.C20_hash_total', 'C20.C20_rfc3339_total', 'C19.C19_apply_total'], ops=["crash", "pkcs8", "pemfile", "rdn", "raw"], sites=True,
         rule="crash (search support, not proof): hostile values (empty, huge, malformed OIDs/dates/raw strings, extreme integers) substituted into generated forests with profiles at rates 1/6..1/30 x all 32 flag sets; "
              "byte-level mutations of configuration text; root->sub with every pair of 16 artifact states (absent, garbage PEM blocks, odd hash lines, foreign key types) x flag sets; gopki-written artifacts stripped/truncated/mutated x flag sets; "
              "plus the unit operations of C03/C06/C17 run under recover; the panic-site inventory of the anchored files is regenerated and compared with panic_sites.expected.json; non-trivial = every case (outcome class recorded)",
